@@ -6,8 +6,9 @@
            self.edges), a field column is a [list Z] (exact scaled values;
            max/min/compare only, so any order-preserving scaling is faithful).
    Definitions only; proofs are in Proofs*.v.                                  *)
-From Coq Require Import ZArith List Bool Arith Lia.
+From Coq Require Import ZArith List Bool Arith Lia QArith.
 Import ListNotations.
+Close Scope Q_scope.
 
 (* ------------------------------------------------------------------ *)
 (** * Forest                                                           *)
@@ -356,6 +357,19 @@ Definition bif_order_ok (f : list Z) (th : option Z) (order : list nat) : bool :
   && forallb (fun x => memb x order) (above_list f th)
   && forallb (fun x => memb x (above_list f th)) order
   && sorted_desc f order.
+
+(* ------------------------------------------------------------------ *)
+(** * diffusion (field.py:289-309), one feature column, exact rationals       *)
+
+(* adj = to_coo_matrix(): entry (i, j) is the SUM of the weights of the edges (i, j)
+   (scipy adds duplicate coordinates); each iteration rebinds field = adj * field,
+   computed in float64 whatever the dtype of the stored field. *)
+Definition wedge := (nat * nat * Q)%type.
+Definition qat (f : list Q) (j : nat) : Q := nth j f 0%Q.
+Definition row_dot (W : list wedge) (f : list Q) (i : nat) : Q :=
+  fold_left (fun acc e => if fst (fst e) =? i then Qred (acc + snd e * qat f (snd (fst e)))%Q else acc) W 0%Q.
+Definition diffuse1 (W : list wedge) (f : list Q) : list Q := map (row_dot W f) (seq 0 (length f)).
+Definition diffusion (W : list wedge) (n : nat) (f : list Q) : list Q := iter_n n (diffuse1 W) f.
 
 (* ------------------------------------------------------------------ *)
 (** * comparison helpers for the correspondence                        *)
